@@ -31,7 +31,8 @@ EXPLANATION = ("Theorems: the invariant Inv (I1 snapshot keys stored+listed and 
                "reachable state of the interleaving model (any number of backups and prunes, induction over step lists) and next_prune_recovers (the follow-up prune "
                "makes every snapshot readable; next_prune_recovers_however_late: at any later time); needed_marked_pack_recovered_whatever_its_age (Recover tests the use, never the "
                "age of the mark; no hypothesis relating mark time, keep-delete and now), kept_marked_packs_keep_their_blobs (an index rewrite that keeps a pack marked keeps its mark "
-               "time and blob list), backup_over_two_prunes_recovered (their composition over two prunes + snapshot save + follow-up prune at any later time); hypothesis keep-delete > backup duration + prune span is a guard of the model, span = 0 is the literal hypothesis; "
+               "time and blob list), backup_over_two_prunes_recovered (their composition over two prunes + snapshot save + follow-up prune at any later time), rewritten_index_listing_blobs_keeps_available / rewrite_dropping_blobs_loses "
+               "(the same on the protocol model with index files, which the driver's monitor judges); hypothesis keep-delete > backup duration + prune span is a guard of the model, span = 0 is the literal hypothesis; "
                "timing core, removal only by plan, plan discipline, backup||backup = any interleaving of step-wise safe writes; negative result "
                "slow_prune_can_lose (literal hypothesis insufficient for the real code: marks carry the plan time; open finding). Correspondence: after "
                "every prefix of the real interleaved trace nothing a snapshot needs is lost; after the follow-up prune the repository is consistent; direct "
